@@ -1,6 +1,9 @@
 import AasVerif.Lemmas.HierTopo
 import AasVerif.Lemmas.HierStack
 import AasVerif.Lemmas.HierOut
+import AasVerif.Lemmas.HierCtor
+import AasVerif.Lemmas.HierPerm
+import AasVerif.Lemmas.HierSer
 /-!
 # C05 — The intermediate model resolves inheritance faithfully
 
@@ -196,6 +199,58 @@ theorem interface_iff (c : ParsedClass) (hc : c ∈ cs) :
   unfold hasInterfaceOf
   simp only [Bool.or_eq_true, Bool.not_eq_true', List.isEmpty_eq_false_iff, ne_eq]
 
+/-! ## Constructors
+
+In the code every in-lined statement is an `AssignArgument` (the model's `InlStmt` has no other form: the
+`assert all(isinstance(stmt, AssignArgument) …)` of the pass is the typing of `inlineOne`), so "no remaining
+super-constructor call" holds by construction; the content is *which* assignments remain.
+
+The constructors are in-lined in **declaration** order, so parents must be declared first
+(`DeclaredParentsFirst`, every Python-legal order); `CtorsWellFormed cs called order` says that every constructor
+calls the constructors of the parents selected by `called` (in the order of the inheritance list), then assigns
+the own properties in order, and that a parent is skipped only if it has no property at all. Before the second
+`fix:` commit the statement failed for every diamond (`a` assigned twice in `D(B, C), B(A), C(A)`). -/
+
+/-- **In-lined constructor**: exactly the stacked properties, each assigned once, in the order of the properties. -/
+theorem ctor_inlined {called : Name → Bool} (hu : UniqueNames cs) (hp : ParentsExist cs) (ha : Acyclic cs)
+    (hd : DeclaredParentsFirst cs) (hown : OwnNodup cs (·.ownProps))
+    (hw : CtorsWellFormed cs called (topo cs)) (c : Name) (hc : c ∈ names cs) :
+    (inlineAll cs c).map InlStmt.item = propsOf cs (topo cs) c :=
+  (inlineAll_spec hu (topoState_spec hu hp ha).2.2 hd hown hw c hc).1
+
+/-- … hence the assignment targets are the property names, and in an accepted model no target repeats. -/
+theorem ctor_targets {called : Name → Bool} (hu : UniqueNames cs) (hp : ParentsExist cs) (ha : Acyclic cs)
+    (hd : DeclaredParentsFirst cs) (hown : OwnNodup cs (·.ownProps))
+    (hw : CtorsWellFormed cs called (topo cs)) (c : Name) (hc : c ∈ names cs) :
+    (inlineAll cs c).map (·.target) = (propsOf cs (topo cs) c).map (·.2) := by
+  have := congrArg (List.map Prod.snd) (ctor_inlined hu hp ha hd hown hw c hc)
+  simpa [InlStmt.item, List.map_map, Function.comp_def] using this
+
+theorem ctor_targets_nodup {called : Name → Bool} {o : Out} (hacc : translate cs = .ok o)
+    (hu : UniqueNames cs) (hp : ParentsExist cs) (ha : Acyclic cs)
+    (hd : DeclaredParentsFirst cs) (hown : OwnNodup cs (·.ownProps))
+    (hw : CtorsWellFormed cs called (topo cs)) (c : Name) (hc : c ∈ names cs) :
+    ((inlineAll cs c).map (·.target)).Nodup := by
+  rw [ctor_targets hu hp ha hd hown hw c hc]
+  exact props_names_nodup hacc c ((topoState_spec hu hp ha).2.2.mem.mpr hc)
+
+/-! ## Model type -/
+
+/-- **`with_model_type` is propagated down**: if no inconsistency was reported, every descendant of a class with
+the setting has it as well. -/
+theorem modelType_consistent (hu : UniqueNames cs) (hp : ParentsExist cs) (ha : Acyclic cs)
+    (hok : (stackSer (parentsOf cs) (ownWmt cs) (topo cs)).2 = false) (c d : Name)
+    (hd : d ∈ descendantsOf cs (topo cs) c) (hc : wmtOf cs (topo cs) c = true) :
+    wmtOf cs (topo cs) d = true := by
+  have ho := (topoState_spec hu hp ha).2.2
+  exact ser_descends (ho.nodup hu) ho.sorted (ho.covers hp) hok ((descendants_exact hu hp ha c d).mp hd) hc
+
+/-! ## Determinism of the type order (used by C22) -/
+
+/-- The topological order is a function of the *set* of classes: it does not depend on the declaration order. -/
+theorem topo_perm_invariant {cs' : List ParsedClass} (h : cs.Perm cs') (hu : UniqueNames cs) : topo cs = topo cs' :=
+  topo_perm_invariant' h hu
+
 /-! ## Non-vacuity: the diamond meets the hypotheses and is accepted -/
 
 example : UniqueNames diamondCB ∧ ParentsExist diamondCB ∧ OwnNodup diamondCB (·.ownProps) := by decide
@@ -204,6 +259,21 @@ example : Acyclic diamondCB :=
   acyclic_of_certificate [[65], [66], [67], [68]] (by decide) (by decide)
 
 example : ancestorsOf diamondCB (topo diamondCB) [68] = [[65], [66], [67]] := by decide
+
+example : DeclaredParentsFirst diamondCB := by
+  intro l1 c l2 hs p hp
+  rcases firstNotTopo_none (names diamondCB) [] (by decide) l1 c l2 hs p hp with h | h
+  · simp at h
+  · exact h
+
+instance (called : Name → Bool) (c : ParsedClass) : Decidable (CanonicalCtor called c) := by
+  unfold CanonicalCtor; infer_instance
+
+example : (∀ c ∈ diamondCB, CanonicalCtor (fun _ => true) c) := by decide
+
+example : (inlineAll diamondCB [68]).map (·.target) = [[97], [99], [98], [100]] := by decide
+
+example : (match translate diamondCB with | .ok _ => true | _ => false) = true := by decide
 
 example : propsOf diamondCB (topo diamondCB) [68] = [([65], [97]), ([67], [99]), ([66], [98]), ([68], [100])] := by
   decide
